@@ -35,7 +35,7 @@ func init() {
 
 func genC12(r *rng, n int, tier string) []string {
 	out := []string{}
-	for _, s := range []string{"y = 1 + x\nz = 5", "a.b\nc", "let s = \"abc\"\nlet t = `q\nr`\nf([1, {k: (2)}])", "if (a) { b }\nlet x = 1", "function f(a, b) { return a + b }\nf(1, 2)", "x++\ny--\n++z", "a = b.c\nd = 1"} {
+	for _, s := range []string{"y = 1 + x\nz = 5", "a.b\nc", "let s = \"abc\"\nlet t = `q\nr`\nf([1, {k: (2)}])", "if (a) { b }\nlet x = 1", "function f(a, b) { return a + b }\nf(1, 2)", "x++\ny--\n++z", "a = b.c\nd = 1", "x = [0,1.5]\nf(0,1e2,0,3.0)", "y = [1,2.5e1,0]"} {
 		out = append(out, "p "+hx(s))
 	}
 	for i := 0; i < n; i++ {
